@@ -25,8 +25,11 @@ type Schedule struct {
 	Restart bool              `json:"restart"` // restart the node (fresh services, nothing recovered yet) before the steps
 	Faults  []string          `json:"faults"`
 	Procs   map[string]string `json:"procs"` // process name -> entry point
-	Steps   []string          `json:"steps"` // process names; "E" = environment mines one block
+	Steps   []string          `json:"steps"` // process names; "E" = environment mines Mine blocks
+	Mine    uint32            `json:"mine"`  // blocks per "E" step (default 1)
+	Expect  bool              `json:"deadlock"` // the model predicts a deadlock for this schedule
 	Class   string            `json:"class"` // model class this schedule was exported for
+	Model   map[string]any    `json:"model"` // the configuration of Locks.tla this schedule belongs to (copied into the trace)
 }
 
 // Entry runs one entry point of the node for swap s.
@@ -78,6 +81,19 @@ func (w *World) Entry(e string, s *Swap) string {
 		return "noop"
 	case "blk":
 		w.Block(s.Chain, 1)
+		return "ok"
+	case "notify": // the watcher learns about the current tip (no mining)
+		w.Notify(s.Chain, w.Chain[s.Chain].tip())
+		return "ok"
+	case "notify_obs": // the dispatcher offers the current tip to the confirmation observers
+		tip := w.Chain[s.Chain].tip()
+		if rw := w.Rpc[s.Chain]; rw != nil {
+			if rw.VerifDispatchHeight(uint64(tip), 50*time.Millisecond) == 0 {
+				return "noop"
+			}
+			return "ok"
+		}
+		w.Notify(s.Chain, tip)
 		return "ok"
 	case "blk_obs": // deliver the current height to the swap's confirmation observer (RPC watcher)
 		tip := w.Chain[s.Chain].Mine(1)
@@ -186,12 +202,16 @@ func RunSchedule(t int, sc *Schedule, out *ndj.Writer, workdir string, grace tim
 	ctl.occ = map[string]int{}
 	ctl.mu.Unlock()
 	ctl.Emit("reset", Ev{"name": sc.Name, "class": sc.Class, "watcher": sc.Watcher, "role": sc.Role, "stage": sc.Stage, "csv": sc.Csv,
-		"restart": sc.Restart, "faults": append([]string{}, sc.Faults...), "procs": sc.Procs, "state": pre})
+		"restart": sc.Restart, "faults": append([]string{}, sc.Faults...), "procs": sc.Procs, "state": pre, "expect": sc.Expect, "steps": sc.Steps, "model": sc.Model})
 	unsettled := false
 	for i, pn := range sc.Steps {
 		obs := Ev{"i": i + 1, "p": pn}
 		if pn == "E" {
-			w.Chain[chain].Mine(1)
+			n := sc.Mine
+			if n == 0 {
+				n = 1
+			}
+			w.Chain[chain].Mine(n)
 			obs["st"] = "env"
 			ctl.Emit("step", obs)
 			continue
@@ -224,6 +244,7 @@ func RunSchedule(t int, sc *Schedule, out *ndj.Writer, workdir string, grace tim
 		default:
 			obs["st"] = "blocked"
 		}
+		obs["all"] = ctl.statusAll(gs0(ctl))
 		ctl.Emit("after", obs)
 	}
 	// end of schedule: everything may run; whoever has not returned when the
@@ -478,3 +499,51 @@ var _ = os.Getenv
 var StressEntries = []string{"msg_cancel", "msg_coop", "msg_coop_bad", "msg_opening", "msg_agreement", "msg_req_in", "msg_req_out",
 	"pay_claim", "pay_fee", "timeout", "blk", "blk_obs", "rpc_swapout", "rpc_swapin", "rpc_resend", "rpc_list",
 	"pol_disable", "pol_enable", "pol_allow", "pol_suspect", "pol_reload", "pol_get", "recover"}
+
+func gs0(c *Ctl) []G { _, gs := c.Settle(20 * time.Second); return gs }
+
+// statusAll: where every process of the system under test stands after a
+// settled step: "gate:<name>", "blocked", "idle", "done".
+func (c *Ctl) statusAll(gs []G) map[string]string {
+	out := map[string]string{}
+	c.mu.Lock()
+	ids := map[int64]string{}
+	for n, p := range c.Procs {
+		if p.done {
+			out[n] = "done"
+		} else if c.at[n] != "" {
+			out[n] = "gate:" + c.at[n]
+		} else {
+			out[n] = "blocked"
+		}
+		ids[p.goid] = n
+	}
+	for n, g := range c.at {
+		if _, ok := out[n]; !ok {
+			out[n] = "gate:" + g
+		}
+	}
+	c.mu.Unlock()
+	for i := range gs {
+		g := &gs[i]
+		if _, drv := ids[g.ID]; drv || g.ID == c.self || !g.has(peerswapPkg) {
+			continue
+		}
+		n := bgName(g.Raw)
+		if n != "obs" && n != "elw" && n != "rec" {
+			continue
+		}
+		if _, ok := out[n]; ok {
+			continue
+		}
+		switch {
+		case n == "elw" && !g.has("liquidBlockHeaderSubscriber).Update"):
+			// idle in its select
+		case n == "obs" && g.State == "select":
+			out[n] = "idle"
+		default:
+			out[n] = "blocked"
+		}
+	}
+	return out
+}
